@@ -26,6 +26,11 @@ THEOREMS = {
     "MG.Proofs.C01": [
         "MG.C01.backward_sound",
     ],
+    "MG.Proofs.Lemmas.InPlaceRefine": [
+        "MG.C04R.inplace_on_owner_refines_numpy",
+        "MG.C04R.inplace_on_owner_is_ssa_renaming",
+        "MG.C04R.outRes_ops",
+    ],
 }
 
 GEN = dict(inplace=True, p_inplace=0.35, p_view=0.25, p_fail=0.0, p_const=0.12, n_stmts=9)
@@ -297,11 +302,17 @@ MANIFEST = {
             "position), UnView and ApplyMask ARE the adjoints of the functional updates they stand for "
             "(setitem_vjp_adjoint incl. repeated indices, unview_vjp_adjoint, applyMask_vjp_adjoint, built on "
             "C02's setitem_vjp / where_mask_vjp), and a placeholder keeps pointing at the pre-mutation array "
-            "without any buffer being written (placeholder_keeps_value). The direct oracle runs the same "
+            "without any buffer being written (placeholder_keeps_value). For an update on a tensor that owns its memory "
+            "and has no live views the whole _in_place_op of the model is evaluated in closed form "
+            "(inplace_on_owner_refines_numpy: the result heap is finalH) and that heap IS the single-assignment form of "
+            "the statement (inplace_on_owner_is_ssa_renaming): x is the output of one new op of the given kind whose "
+            "inputs are the operands with x replaced by a fresh placeholder p, every earlier consumer of x now "
+            "consumes p, no other op changed, and p reads what x read before - so C01's backward_sound applies to the "
+            "functional program. The direct oracle runs the same "
             "statements through plain NumPy on Fraction dual numbers (re-seeding the mutated family) and compares "
             "every owner's gradient exactly; a forward/mutate-input/backward monitor over 20 op classes checks "
             "that backward reads inputs only through Operation.variables.",
     "note": "Trusted: Lean kernel, standard axioms; correspondence harness. The graph-isomorphism between the placeholder graph and "
-            "the SSA functional program is validated by the correspondence + exact oracle on every run, not proved in general "
-            "(named gap inplace_graph_iso); H_vars_only is monitored per op class.",
+            "the SSA functional program is proved for updates on a tensor without live views (inplace_on_owner_is_ssa_renaming) "
+            "and validated by the correspondence + exact oracle on every run for view forests (named gap inplace_graph_iso); H_vars_only is monitored per op class.",
 }
